@@ -31,6 +31,31 @@ theorem normalise_sound (crc : Bytes → Nat) (segs : List Seg) (tail : Bytes) (
 /-- What a valid frame is delivered as. -/
 theorem frame_expected (f : Bytes) : (Seg.frame f).expected = { typ := typeOf f, raw := f } := rfl
 
+/-- Frames are never merged by normalisation. -/
+theorem normalise_frames : ∀ (fs : List Bytes), normalise (fs.map Seg.frame) = fs.map Seg.frame
+  | [] => by simp [normalise]
+  | [f] => by simp [normalise]
+  | f :: g :: rest => by
+    have ih := normalise_frames (g :: rest)
+    simp only [List.map_cons] at ih ⊢
+    rw [normalise, ih]
+    intro x y h; cases h
+
+/-- A stream that consists of valid frames only, back to back (the normal case of a healthy
+    caster connection), is delivered as exactly one typed message per frame, in order, each
+    with exactly its own bytes, and nothing else. -/
+theorem back_to_back_frames (crc : Bytes → Nat) (fs : List Bytes) (hv : ∀ f ∈ fs, ValidFrame crc f) :
+    segment crc (In.ofBytes fs.flatten) = fs.map (fun f => { typ := typeOf f, raw := f }) := by
+  have h := recognised crc (fs.map Seg.frame) [] (by
+      intro s hs; rcases List.mem_map.mp hs with ⟨f, hf, rfl⟩; exact hv f hf)
+    (by intro s hs f' hne; rcases List.mem_map.mp hs with ⟨f, _, rfl⟩; cases hne)
+    (Or.inl rfl)
+  simp only [streamOf, List.map_map, List.append_nil, normalise_frames, expectedTail, ↓reduceIte] at h
+  have e1 : (Seg.bytes ∘ Seg.frame) = id := by funext f; rfl
+  have e2 : (Seg.expected ∘ Seg.frame) = (fun f => ({ typ := typeOf f, raw := f } : Msg)) := by funext f; rfl
+  rw [e1, e2] at h
+  simpa using h
+
 /-! Non-vacuity (tests): a concrete valid frame, and the premises of `recognised` are met by a
     stream with junk, a frame, junk, a frame and a truncated tail. -/
 def F1 : Bytes := [0xD3, 0x00, 0x02, 0x3E, 0xD0] ++ crcBytes (crc24q [0xD3, 0x00, 0x02, 0x3E, 0xD0])
@@ -49,5 +74,10 @@ example : (∀ s ∈ [Seg.junk [0x24, 0x47], .frame F1, .junk [0x0d], .junk [0x0
   · exact ⟨by decide, by decide⟩
   · exact ⟨by decide, by decide⟩
   · exact F1_valid
+
+/-- Non-vacuity of `back_to_back_frames` (a test): two copies of the concrete frame. -/
+example : segment crc24q (In.ofBytes [F1, F1].flatten) =
+    [{ typ := typeOf F1, raw := F1 }, { typ := typeOf F1, raw := F1 }] :=
+  back_to_back_frames crc24q [F1, F1] (by intro f hf; simp at hf; subst hf; exact F1_valid)
 
 end Ntrip.C03
